@@ -86,6 +86,21 @@ Fixpoint argmin_from (best : F) (bi i : Z) (l : list F) : Z :=
 Definition vargmin (l : list F) : res Z :=
   match l with [] => Err Dom | x :: t => Ok (argmin_from x 0%Z 1%Z t) end.
 
+(* np.argmax on a score array that may hold +inf: first index of the largest element *)
+Fixpoint eargmax_from (best : Ext F) (bi i : Z) (l : list (Ext F)) : Z :=
+  match l with
+  | [] => bi
+  | x :: t =>
+      let better := match best, x with
+                    | Fin a, Fin b => fltb a b
+                    | Fin _, PInf => true
+                    | PInf, _ => false
+                    end in
+      if better then eargmax_from x i (i + 1)%Z t else eargmax_from best bi (i + 1)%Z t
+  end.
+Definition veargmax (l : list (Ext F)) : res Z :=
+  match l with [] => Err Dom | x :: t => Ok (eargmax_from x 0%Z 1%Z t) end.
+
 (* division of a vector by a scalar / of a scalar-by-vector uses numpy (inf/nan) semantics in the
    implementation; the model flags a zero divisor as an error (a non-finite result is a failure) *)
 Definition vdivs (a : list F) (c : F) : res (list F) := mapM (fun x => fdiv x c) a.
